@@ -1536,6 +1536,14 @@ class Engine:
                     s.nskipped += 1
                     raise PathEnd()      # rejection loops are cut after max_draws raw draws (stated bound)
                 st.extra['ndraws'] = n
+            dl = st.extra.get('drawlog', ())
+            di = st.extra.get('drawidx', len(dl))
+            if di < len(dl):
+                # after sym_draws_rewind(): the generator is in the same state again, so it repeats its outputs
+                st.extra['drawidx'] = di + 1
+                if dst:
+                    st.stack[-1].regs[dst] = dl[di]
+                return
             lb = s.o.get('draw_low_bytes')
             if lb:
                 # stated bound: only these ziggurat layers (low byte of the raw draw) are explored.  The draw is the
@@ -1548,6 +1556,8 @@ class Engine:
                 st.syms.append(('draw', r, 'bv'))
             else:
                 r = s.fresh(st, 'draw', 64)
+            st.extra['drawlog'] = tuple(dl) + (r,)
+            st.extra['drawidx'] = len(dl) + 1
             if dst:
                 st.stack[-1].regs[dst] = r
             return
@@ -2558,6 +2568,14 @@ def _assert(s, st, a, ins):
 @builtin('@sym_tag')
 def _tag(s, st, a, ins):
     st.tags[s.cstr(st, a[0])] = _cond(a[1])
+    return None
+
+
+@builtin('@sym_draws_rewind')
+def _rewind(s, st, a, ins):
+    # self-composition under sym_draws: the raw generator is put back to the state it had at the first draw
+    st.extra['drawidx'] = 0
+    st.extra['ndraws'] = 0
     return None
 
 
